@@ -117,7 +117,7 @@ def _effect(rec):
     if o["base"] != o["with"]:
         return "committed-balance-delta-without-signature"
     if not (o["hash_eq"] and o["next_eq"]):
-        return "app-hash-differs"
+        return "committed-state-differs"
     if not o["tx_eq"]:
         return "tx-events-differ"
     return "none"
